@@ -366,6 +366,50 @@ def run (t : GridTerm) : List Req → GridTerm
   | [] => t
   | r :: rs => run (t.step r) rs
 
+/-! ### A screen of `L` lines
+
+  `GridTerm` is a plane unbounded downwards.  A real screen has `L` lines: a cursor movement below the last line is
+  clamped to it, and the deferred wrap on the last line scrolls the screen up by one line.  `stepL`/`runL` interpret the
+  requests on such a screen (rows `0 … L-1` of the grid); `flush_on_screen` (Props/C04.lean) shows that the flush of a
+  buffer whose content lies within the screen never triggers either — `runL` and `run` agree on its requests. -/
+
+/-- The deferred wrap on a screen of `L` lines: on the last line the screen scrolls (the top line is lost, the
+    lines move up, the new bottom line is blank in the current rendition) and the cursor stays on the last line. -/
+def wrapL (L : Int) (t : GridTerm) : GridTerm :=
+  if t.line = L - 1 then
+    { t with
+      cells := fun l c =>
+        if l = L - 1 then { glyph := .blank, pen := t.pen, writes := (t.cells l c).writes + 1 }
+        else if 0 ≤ l ∧ l < L - 1 then t.cells (l + 1) c
+        else t.cells l c
+      col := 0
+      last := t.last.map fun p => (p.1 - 1, p.2) }
+  else t.wrap
+
+def putGlyphL (L : Int) (t : GridTerm) (bs : List UInt8) (w : Int) : GridTerm :=
+  (if t.col + w > t.cols then t.wrapL L else t).putGlyphRaw bs w
+
+def putChL (L : Int) (t : GridTerm) (c : Ch) : GridTerm :=
+  if c.width = 0 then t.addZeroWidth c.bytes else t.putGlyphL L c.bytes c.width
+
+def putChsL (L : Int) (t : GridTerm) (cs : List Ch) : GridTerm := cs.foldl (putChL L) t
+
+def printBytesL (L : Int) (t : GridTerm) (bs : List UInt8) : GridTerm := t.putChsL L (termDecode bs (bs.length + 1) 0)
+
+/-- `goto` on a screen of `L` lines: the line is clamped to the screen, too. -/
+def gotoL (L : Int) (t : GridTerm) (line col : Int) : GridTerm := t.goto (max 0 (min line (L - 1))) col
+
+/-- One request on a screen of `L` lines. -/
+def stepL (L : Int) (t : GridTerm) : Req → GridTerm
+  | .goto l c => t.gotoL L l c
+  | .setpen p => t.setpen p
+  | .print s start len => t.printBytesL L (reqBytes t.viaWriteStr s start len)
+  | .erasech n m => t.erasech n m
+
+def runL (L : Int) (t : GridTerm) : List Req → GridTerm
+  | [] => t
+  | r :: rs => runL L (t.stepL L r) rs
+
 /-- Re-tabulate the window `[0,lines) × [0,cols)` (execution speed only); cells outside keep their closure. -/
 def compact (t : GridTerm) (lines cols : Nat) : GridTerm :=
   let tab : Array (Array TCell) := Array.ofFn (n := lines) fun l => Array.ofFn (n := cols) fun c => t.cells l.val c.val
